@@ -5,8 +5,12 @@ import hashlib, json, os, re, resource, select, subprocess, sys, threading, time
 VERIF = os.path.dirname(os.path.dirname(os.path.abspath(__file__)))
 REPO = os.environ.get('VERIF_REPO', '/repo')
 LEAN = os.path.join(VERIF, 'lean')
-HARNESS = os.path.join(VERIF, 'harness')
-WORK = os.path.join(VERIF, '.work')
+# self-test overrides (seeded-mutant runs against a scratch worktree without touching /repo or the committed evidence):
+#   VERIF_REPO = source tree, VERIF_HARNESS = a copy of harness/ whose path dependencies point at that tree,
+#   VERIF_OUT = where evidence/ and replays/ are written, VERIF_WORK = scratch directory
+HARNESS = os.environ.get('VERIF_HARNESS', os.path.join(VERIF, 'harness'))
+OUT = os.environ.get('VERIF_OUT', VERIF)
+WORK = os.environ.get('VERIF_WORK', os.path.join(VERIF, '.work'))
 HBIN = os.path.join(HARNESS, 'target', 'debug', 'gharness')
 DRV = os.path.join(LEAN, '.lake', 'build', 'bin', 'garnish-drv')
 NCPU = min(16, os.cpu_count() or 4)
@@ -29,7 +33,7 @@ def sh(cmd, cwd=None, timeout=3600, env=None):
 
 # ------------------------------------------------------------------ builds
 
-_lock_path = os.path.join(VERIF, '.work', 'build.lock')
+_lock_path = os.path.join(WORK, 'build.lock')
 
 
 class BuildLock:
@@ -364,8 +368,8 @@ def standard_proof_obligations(ctx, lean_targets=None):
 def finish(ctx):
     """classify failures against known findings, write replay + evidence, print lines, exit."""
     findings = load_findings()
-    os.makedirs(os.path.join(VERIF, 'replays'), exist_ok=True)
-    os.makedirs(os.path.join(VERIF, 'evidence'), exist_ok=True)
+    os.makedirs(os.path.join(OUT, 'replays'), exist_ok=True)
+    os.makedirs(os.path.join(OUT, 'evidence'), exist_ok=True)
     unlisted = []
     known_hit = {}
     for f in ctx.failures:
@@ -388,7 +392,7 @@ def finish(ctx):
         unlisted.sort(key=lambda f: (0 if f['kind'] == 'oracle' else 1, len(json.dumps(f['case']))))
         f = unlisted[0]
         digest = hashlib.sha1(json.dumps(f, sort_keys=True).encode()).hexdigest()[:10]
-        path = os.path.join(VERIF, 'replays', f'{ctx.prop}-{digest}.json')
+        path = os.path.join(OUT, 'replays', f'{ctx.prop}-{digest}.json')
         replay = {'property': ctx.prop, 'seed': ctx.seed, 'tier': ctx.tier, 'failure': f,
                   'more': unlisted[1:10], 'count': len(unlisted), 'broken_obligations': ctx.broken,
                   'how_to_replay': f'./check {ctx.prop} --replay {path}'}
@@ -401,7 +405,7 @@ def finish(ctx):
         violations = len(unlisted)
     elif ctx.broken:
         digest = hashlib.sha1(json.dumps(ctx.broken, sort_keys=True).encode()).hexdigest()[:10]
-        path = os.path.join(VERIF, 'replays', f'{ctx.prop}-{digest}.json')
+        path = os.path.join(OUT, 'replays', f'{ctx.prop}-{digest}.json')
         json.dump({'property': ctx.prop, 'seed': ctx.seed, 'tier': ctx.tier, 'broken_obligations': ctx.broken,
                    'note': 'a proof obligation or the tie to the code no longer checks; the failing-input search found no input on which the property itself fails'},
                   open(path, 'w'), indent=1, ensure_ascii=False)
@@ -423,7 +427,7 @@ def finish(ctx):
         cov['exhaustive'] = ctx.exhaustive
     ev = {'property_id': ctx.prop, 'tier': ctx.tier, 'seed': ctx.seed, 'level': ctx.level, 'coverage': cov,
           'assumptions': ctx.assumptions, 'wall_s': round(time.time() - ctx.t0, 2), 'violations': violations}
-    json.dump(ev, open(os.path.join(VERIF, 'evidence', f'{ctx.prop}.json'), 'w'), indent=1, ensure_ascii=False)
+    json.dump(ev, open(os.path.join(OUT, 'evidence', f'{ctx.prop}.json'), 'w'), indent=1, ensure_ascii=False)
     for o in ctx.broken:
         log(f'BROKEN: {o["what"]}: {o["detail"][:500]}')
     for l in lines:
